@@ -111,17 +111,22 @@ Proof.
   rewrite (tag_fail _ _ c s Hb). reflexivity.
 Qed.
 
-(** where literal text ends: at the end of the input or at an opening marker *)
-Definition text_ends (rest : string) : Prop := rest = ""%string \/ exists r, rest = ("${" ++ r)%string.
+(** where a piece of literal text ends: at a special character where the text parser cannot
+    continue (the end of the input, an opening marker, an escaped opening marker) *)
+Definition text_ends (rest : string) : Prop := stops rest /\ pseq ref_not_open text rest = PFail.
+
+Lemma text_ends_nil : text_ends "".
+Proof. split; [exact I | reflexivity]. Qed.
+Lemma text_ends_open r : text_ends ("${" ++ r).
+Proof. split; reflexivity. Qed.
+Lemma text_ends_esc_open r : text_ends ("\${" ++ r).
+Proof. split; reflexivity. Qed.
 
 Lemma text_ends_stops rest : text_ends rest -> stops rest.
-Proof. intros [-> | [r ->]]; [exact I | reflexivity]. Qed.
+Proof. intros [H _]; exact H. Qed.
 
 Lemma content_stops rest : text_ends rest -> pseq ref_not_open text rest = PFail.
-Proof.
-  intros [-> | [r ->]]; [reflexivity|].
-  unfold pseq, ref_not_open, pmap, pseq, pnot, tag. cbn [append strip Ascii.eqb]. reflexivity.
-Qed.
+Proof. intros [_ H]; exact H. Qed.
 
 Lemma content_run c p rest :
   plain (String c p) -> text_ends rest -> content (String c p ++ rest)%string = POk rest (String c p).
@@ -221,10 +226,13 @@ Fixpoint alternating (l : list seg) : Prop :=
 Lemma alternating_tail g l : alternating (g :: l) -> alternating l.
 Proof. destruct g, l as [|[] l]; cbn; tauto. Qed.
 
+Lemma str_app_assoc_pre (a b c : string) : ((a ++ b) ++ c)%string = (a ++ (b ++ c))%string.
+Proof. induction a as [|x a IH]; cbn; [reflexivity | now rewrite IH]. Qed.
+
 Lemma text_ends_after_text c p l : alternating (SText c p :: l) -> text_ends (segs_str l).
 Proof.
-  destruct l as [|[c2 p2|c2 k2] l]; cbn [alternating segs_str seg_str]; [left; reflexivity | tauto |].
-  intros _. right. eexists. cbn [append]. reflexivity.
+  destruct l as [|[c2 p2|c2 k2] l]; cbn [alternating segs_str seg_str]; [intros _; exact text_ends_nil | tauto |].
+  intros _. rewrite !str_app_assoc_pre. apply text_ends_open.
 Qed.
 
 Lemma str_app_assoc (a b c : string) : ((a ++ b) ++ c)%string = (a ++ (b ++ c))%string.
@@ -234,7 +242,7 @@ Lemma text_ends_tail c p l bad :
   alternating (SText c p :: l) -> text_ends bad -> text_ends (segs_str l ++ bad)%string.
 Proof.
   destruct l as [|[c2 p2|c2 k2] l]; cbn [alternating segs_str seg_str]; [intros _ H; exact H | tauto |].
-  intros _ _. right. eexists. cbn [append]. reflexivity.
+  intros _ _. rewrite !str_app_assoc. apply text_ends_open.
 Qed.
 
 (** one piece, whatever follows ([bad]: the unparsed tail, empty for a whole template) *)
@@ -330,8 +338,148 @@ Theorem template_parse g l c k :
 Proof.
   intros Hok Halt Hin. unfold token_parse. rewrite (has_marker_segs _ c k Hin).
   unfold parse_ref, parse_ref_fuel. rewrite <- (app_empty_r (segs_str (g :: l))).
-  rewrite (many1_segs _ g l "" (or_introl eq_refl) (item_at_end _) Hok Halt).
+  rewrite (many1_segs _ g l "" text_ends_nil (item_at_end _) Hok Halt).
   unfold coalesce. cbn [fst snd].
   rewrite (coalesce_rev_noadj (map seg_tok l) [seg_tok g]); [|exact (seg_toks_noadj (g :: l) Halt)].
   cbn [rev app map]. destruct (map seg_tok l) as [|t ts]; reflexivity.
+Qed.
+
+(** * unclosed and empty references are parse errors *)
+Lemma ralt_at_end : ralt "" = PFail.
+Proof. reflexivity. Qed.
+
+Lemma ref_string_run_end c k :
+  plain (String c k) -> ref_string (String c k) = POk ""%string (String c k).
+Proof.
+  intros Hp. pose proof Hp as [Hc _]. destruct (plain_char c Hc) as (Hb & Hd & _ & Hcl).
+  unfold ref_string, pmap, many1. fold ralt.
+  assert (E : ralt (String c k) = POk ""%string (String c k)).
+  { unfold ralt. cbn [alt].
+    rewrite (double_escape_plain c _ Hb), (ref_escape_open_plain c _ Hb), (ref_escape_close_plain c _ Hb), (inv_escape_open_plain c _ Hb).
+    unfold ref_content, pmap. unfold pseq at 1. rewrite (ref_not_open_plain c _ Hb Hd). cbn [pbind].
+    unfold pseq at 1. rewrite (ref_not_close_plain c _ Hb Hcl). cbn [pbind].
+    rewrite <- (app_empty_r (String c k)) at 1. rewrite (ref_text_run c k ""%string Hp I). reflexivity. }
+  rewrite E. cbn [pbind many1_rest]. rewrite ralt_at_end. cbn [pbind rev concat_str]. now rewrite app_empty_r.
+Qed.
+
+Lemma pstring_at_open r : pstring ("${" ++ r)%string = PFail.
+Proof. reflexivity. Qed.
+
+Lemma item_unclosed b k : plain k -> item (S b) ("${" ++ k)%string = PFail.
+Proof.
+  intros Hp. unfold item. cbn [alt]. unfold pmap. rewrite (pstring_at_open k).
+  assert (E : reference (S b) ("${" ++ k)%string = PFail); [|now rewrite E].
+  cbn [reference]. unfold ref_open at 1. unfold tag at 1. cbn [append strip Ascii.eqb Bool.eqb pbind].
+  destruct k as [|c k].
+  - unfold many1. cbn [alt]. destruct b; reflexivity.
+  - pose proof Hp as [Hc _]. destruct (plain_char c Hc) as (Hb & Hd & _ & Hcl).
+    unfold many1. cbn [alt]. rewrite (reference_plain c _ Hd b). unfold pmap at 1.
+    rewrite (ref_string_run_end c k Hp). cbn [pbind many1_rest alt].
+    assert (E0 : reference b "" = PFail) by (destruct b; reflexivity). rewrite E0.
+    reflexivity.
+Qed.
+
+Lemma item_empty_ref b rest : item (S b) ("${}" ++ rest)%string = PFail.
+Proof.
+  unfold item. cbn [alt]. unfold pmap.
+  change ("${}" ++ rest)%string with ("${" ++ ("}" ++ rest))%string. rewrite (pstring_at_open ("}" ++ rest)%string).
+  assert (E : reference (S b) ("${" ++ ("}" ++ rest))%string = PFail); [|now rewrite E].
+  cbn [reference]. unfold ref_open at 1. unfold tag at 1. cbn [append strip Ascii.eqb Bool.eqb pbind].
+  unfold many1. cbn [alt]. change (String "}" rest) with ("}" ++ rest)%string.
+  rewrite (reference_at_close b rest). unfold pmap. rewrite (ref_string_at_close rest). reflexivity.
+Qed.
+
+Lemma contains_open a r : has_marker (a ++ "${" ++ r) = true.
+Proof. unfold has_marker. now rewrite (contains_app a "${" r). Qed.
+
+(** any template followed by something the parser cannot take is rejected as a whole *)
+Lemma stuck_is_error l bad :
+  Forall seg_ok l -> alternating l -> text_ends bad -> bad <> ""%string ->
+  item (S MAX_REF_NESTING) bad = PFail -> has_marker (segs_str l ++ bad) = true ->
+  token_parse (segs_str l ++ bad) = ParseError.
+Proof.
+  intros Hok Halt Hte Hne Hfail Hm. unfold token_parse. rewrite Hm. unfold parse_ref, parse_ref_fuel.
+  destruct l as [|g l].
+  - cbn [segs_str append]. unfold many1. rewrite Hfail. reflexivity.
+  - rewrite (many1_segs _ g l bad Hte Hfail Hok Halt). destruct bad; [congruence | reflexivity].
+Qed.
+
+Theorem unclosed_reference_is_error l k :
+  Forall seg_ok l -> alternating l -> plain k ->
+  token_parse (segs_str l ++ "${" ++ k) = ParseError.
+Proof.
+  intros Hok Halt Hk. apply stuck_is_error; try assumption.
+  - apply text_ends_open.
+  - discriminate.
+  - apply item_unclosed, Hk.
+  - apply contains_open.
+Qed.
+
+Theorem empty_reference_is_error l rest :
+  Forall seg_ok l -> alternating l ->
+  token_parse (segs_str l ++ "${}" ++ rest) = ParseError.
+Proof.
+  intros Hok Halt. apply stuck_is_error; try assumption.
+  - exact (text_ends_open ("}" ++ rest)).
+  - discriminate.
+  - apply item_empty_ref.
+  - exact (contains_open (segs_str l) ("}" ++ rest)).
+Qed.
+
+(** * an escaped opening marker is literal text *)
+Lemma item_escaped_open b rest : item (S b) ("\${" ++ rest)%string = POk rest (TLit "${").
+Proof. reflexivity. Qed.
+
+Lemma many1_rest_step {A} (p : parser A) n s r a acc :
+  p s = POk r a -> String.length r <> String.length s ->
+  many1_rest (S n) p s acc = many1_rest n p r (a :: acc).
+Proof. intros E Hl. cbn [many1_rest]. rewrite E. apply Nat.eqb_neq in Hl. now rewrite Hl. Qed.
+
+Lemma many1_rest_stop {A} (p : parser A) n s acc :
+  p s = PFail -> many1_rest (S n) p s acc = POk s (rev acc).
+Proof. intros E. cbn [many1_rest]. now rewrite E. Qed.
+
+Lemma plain_tail_items b p2 acc n :
+  plain p2 -> String.length p2 <= n ->
+  many1_rest (S n) (item (S b)) p2 acc =
+    POk ""%string (rev acc ++ match p2 with EmptyString => [] | _ => [TLit p2] end).
+Proof.
+  intros Hp Hn. destruct p2 as [|c p].
+  - rewrite many1_rest_stop by apply item_at_end. now rewrite app_nil_r.
+  - destruct n as [|n]; [cbn in Hn; lia|].
+    rewrite (many1_rest_step _ _ _ ""%string (TLit (String c p))).
+    + rewrite many1_rest_stop by apply item_at_end. cbn [rev]. reflexivity.
+    + rewrite <- (app_empty_r (String c p)) at 1. apply item_plain; [exact Hp | exact text_ends_nil].
+    + cbn. lia.
+Qed.
+
+Theorem escaped_marker_is_literal p1 p2 :
+  plain p1 -> plain p2 ->
+  token_parse (p1 ++ "\${" ++ p2) = Parsed (TLit (p1 ++ "${" ++ p2)).
+Proof.
+  intros H1 H2. unfold token_parse.
+  assert (Hm : has_marker (p1 ++ "\${" ++ p2) = true).
+  { change (p1 ++ "\${" ++ p2)%string with (p1 ++ "\" ++ ("${" ++ p2))%string. rewrite <- str_app_assoc. apply contains_open. }
+  rewrite Hm. unfold parse_ref, parse_ref_fuel, many1.
+  destruct p1 as [|c p].
+  - cbn [append]. change (String "\" (String "$" (String "{" p2))) with ("\${" ++ p2)%string.
+    rewrite item_escaped_open. cbn [pbind].
+    rewrite (plain_tail_items _ p2 [] _ H2) by lia. cbn [pbind rev app].
+    destruct p2 as [|c2 p2']; reflexivity.
+  - rewrite (item_plain _ c p ("\${" ++ p2)%string H1 (text_ends_esc_open p2)). cbn [pbind].
+    rewrite (many1_rest_step _ _ _ p2 (TLit "${")); [|apply item_escaped_open | cbn; lia].
+    cbn [String.length append].
+    rewrite (plain_tail_items _ p2 [TLit "${"] _ H2) by lia. cbn [pbind rev app].
+    destruct p2 as [|c2 p2']; cbn [coalesce fst snd coalesce_rev rev app]; [reflexivity | now rewrite str_app_assoc].
+Qed.
+
+(** non-vacuity: concrete templates *)
+Example template_example :
+  token_parse "pre-${a:b}-mid-${c}" =
+    Parsed (TComb [TLit "pre-"; TRef [TLit "a:b"]; TLit "-mid-"; TRef [TLit "c"]]).
+Proof.
+  change "pre-${a:b}-mid-${c}"%string with
+    (segs_str [SText "p" "re-"; SRef "a" ":b"; SText "-" "mid-"; SRef "c" ""]).
+  rewrite (template_parse _ _ "c"%char ""%string); [reflexivity | | exact I | cbn; tauto].
+  repeat constructor.
 Qed.
